@@ -256,3 +256,24 @@ Theorem C14_aggregate_calls_after_filters_from_text : forall cfg parse_float reg
             calls st ++ fagg_calls parse_float ffun afun regex_match (x :: r) g fs doc.
 Proof. exact fchain_agg_calls. Qed.
 Print Assumptions C14_aggregate_calls_after_filters_from_text.
+(* the call logs of the paths written without their leading `$` (NoDollarFun.v, NoDollarAgg.v) *)
+Theorem C14_calls_without_dollar_from_text : forall cfg parse_float regex_ok ffun afun regex_match,
+  (forall f v w, small v -> ffun f v = Some w -> small w) ->
+  (forall f l w, Forall small l -> afun f l = Some w -> small w) ->
+  forall s l f fs doc st, step_ok s = true -> forallb fstep_ok l = true -> forallb (fstep_okp parse_float regex_ok) l = true ->
+  forallb fname_ok (f :: fs) = true -> forallb (fun_known cfg) (f :: fs) = true -> small doc -> ok st ->
+  exists t, parse_with cfg parse_float regex_ok jsonpath_grammar (fchain_fun_path0 s l (f :: fs)) = ParseOk t /\
+            calls (snd (eval_run ffun afun regex_match t doc st)) =
+            calls st ++ calls_all ffun (f :: fs) (nav_allf parse_float regex_match doc (FS (RPlain s) :: l) ([], doc)).
+Proof. exact fchain_fun_calls0. Qed.
+Print Assumptions C14_calls_without_dollar_from_text.
+Theorem C14_aggregate_calls_without_dollar_from_text : forall cfg parse_float regex_ok ffun afun regex_match,
+  (forall f v w, small v -> ffun f v = Some w -> small w) ->
+  (forall f l w, Forall small l -> afun f l = Some w -> small w) ->
+  forall s l g fs doc st, step_ok s = true -> forallb fstep_ok l = true -> forallb (fstep_okp parse_float regex_ok) l = true ->
+  forallb fname_ok (g :: fs) = true -> agg_known cfg g = true -> forallb (fun_known cfg) fs = true -> small doc -> ok st ->
+  exists t, parse_with cfg parse_float regex_ok jsonpath_grammar (fchain_fun_path0 s l (g :: fs)) = ParseOk t /\
+            calls (snd (eval_run ffun afun regex_match t doc st)) =
+            calls st ++ fagg_calls parse_float ffun afun regex_match (FS (RPlain s) :: l) g fs doc.
+Proof. exact fchain_agg_calls0. Qed.
+Print Assumptions C14_aggregate_calls_without_dollar_from_text.
